@@ -29,7 +29,7 @@ func init() {
 	engine.Register(&engine.Check{
 		ID:    "C01",
 		Title: "Programs evaluate to the result ECMAScript 5 prescribes",
-		Rule: "every program of the generator families (A control skeletons, B binding histories, C/Cnew/Cnative calls, arguments, constructors, built-in callees, " +
+		Rule: "every program of the generator families (A control skeletons, B binding histories, H collisions of the declaration kinds of 10.5 (parameter, function declaration, arguments object, var, own name, catch parameter, eval-declared) on one name, C/Cnew/Cnative calls, arguments, constructors, built-in callees, " +
 			"D evaluation order, E conditionally evaluated statement-head expressions, L label-name reuse, F for-in over multi-key objects, R scope mutation between resolution and use of a Reference, " +
 			"S leaving scope-introducing constructs, G arguments-object histories, K bind chains and re-entrant bound calls, P accessors reached through the prototype chain, hand-written witnesses) is enumerated completely within its bound (choice vectors of engine.Explore / full products); each " +
 			"program text is distinct; it is run on otto through Run(string), Compile+Run, ParseFile+Run(*ast.Program), Eval, and a " +
@@ -42,6 +42,7 @@ func init() {
 			{Name: "D", Run: runD},
 			{Name: "D2", Run: runD2},
 			{Name: "B", Run: runB},
+			{Name: "H", Run: runH},
 			{Name: "C", Run: runC},
 			{Name: "Cnew", Run: runCnew},
 			{Name: "Cnative", Run: runCnative},
